@@ -36,6 +36,7 @@ XONSH_PARTS = [
     ("path", "p'/a/b'\n"), ("path", "x = pf'/a/{b}' / pr'\\c'\n"), ("path", "y = (p\"a\" 'b')\n"), ("path", "z = f(p'q', pf\"{r}\")\n"),
     ("help", "x?\n"), ("help", "a.b??\n"), ("help", "v = b?.c?\n"),
     ("backtick", "y = `.*\\.py`\n"), ("backtick", "z = g`*.py` + @foo`bar`\n"),
+    ("fstring", 's = f"""l1\nl2\nl3\n{a}!"""\n'), ("fstring", "print(f'{v=}', f'{w = !r:>4}')\n"), ("fstring", "t = f'''{\nq\n=}'''\n"), ("fstring", "u = pf'{h}/{v=}'\n"),
     ("boolop", "a && b || c\n"), ("boolop", "r = $(x) && ![y]\n"),
     ("bare-cmd", "ls -la\n") if False else ("subproc", "print($(pwd))\n"),
 ]
